@@ -19,13 +19,17 @@
    arguments are modelled (they end in an error, compared with the code by the correspondence check)
    but are outside the quantifier of the property.
 
-   `from` is never modified: the model is a pure function of (to, from), so this is not a theorem
-   here; on the code it is checked by snapshot comparison on every native evaluation.
+   `from` is never modified: the model of Model/Copy.v is a pure function of (to, from), so there it is
+   no statement.  It is stated on the WRITE-EFFECT TABLE (Gen/WriteEffects.v, regenerated from the SSA
+   form of the package on every run; semantics of Model/WriteEff.v, the one property C12 uses) as far
+   as that table can express it - block "`from` is never modified" below, header of Model/CopyEff.v -
+   and on the code it is checked by snapshot comparison on every native evaluation.
 
    Trusted: reflectItemToType refuses non-convertible pointer types (Go reflect); strings.EqualFold
    on ASCII type names. *)
-From AP.Model Require Import Prelude Vocab Pred Layout IriEq Copy CopyGen.
-From AP.Proofs Require Import CopyP CopyGenP.
+From AP.Model Require Import Prelude Vocab Pred Layout IriEq Copy CopyGen WriteEff WriteEffInst CopyEff.
+From AP.Gen Require Import WriteEffects.
+From AP.Proofs Require Import CopyP CopyGenP CopyEffP.
 
 (* the table condition holds for what copy.go says on this run *)
 Theorem C18_tables : tables_ok gen_copy_tables = true.
@@ -137,3 +141,109 @@ Example C18_merge_example :
     fget F_Tag r = Some (FItems (Some [])) /\ fget F_Inbox r = getf F_Inbox tfs /\
     fget F_Outbox r = getf F_Outbox ffs /\ fget F_Duration r = getf F_Duration tfs.
 Proof. exact gen_merge_example. Qed.
+
+(* ---- `from` is never modified: the write-effect table (Model/CopyEff.v)
+
+   The full statement would be: no memory reachable from `from` when CopyItemProperties(to, from) is entered is
+   written during the call.  The table's roots are flow-insensitive: after `to.Tag = from.Tag` what `to` reaches one
+   level down IS memory of `from`, and the To.. views handed to the nested Copy calls are "to at any depth" for the
+   analysis, so C12's transitive node condition started at the `from` parameters refuses the merge itself
+   ([C18_from_transitive_condition_too_coarse]).  What the table does express is proved instead, for EVERY table
+   satisfying the decidable condition [copy_we_ok], in the terms of Model/WriteEff.v ([nreach], [freach], [node_bad],
+   [fn_bad]: no second semantics):
+     (1) the eight functions of the family are in the table with the parameters (to, from);
+     (2) their own statements write local memory and the struct `to` points to, nothing else (no deeper level of
+         `to` either), and they call no function of another package that writes through an argument;
+     (3) none of their statements writes memory rooted at `from`, at any depth;
+     (4) a Copy function calling a Copy function passes (memory rooted at) its `to` as `to` and its `from` as `from`;
+     (5) whatever a Copy function hands of `from` to a function OUTSIDE the family (replaceIf.., To.., IsNil, the
+         GetLink / GetType implementations, IRI.Equals, ...), followed through calls, interface implementations and
+         function literals to any depth, is written nowhere, and those functions touch no package-level state.
+   PARTIAL with respect to the full statement: that the `to` of a nested Copy call is the caller's `to` itself (a
+   view of the same struct - Gen/Conv.v / property C08) rather than memory `to` points to is not in this table. *)
+Theorem C18_from_not_written_table_partial : forall (T : list fn) (Ext Glob : list bytes),
+  copy_we_ok T Ext Glob = true ->
+  let E := copy_entries T in
+  (forall n, In n copy_fn_names -> exists f x, In f E /\ fn_at T f = Some x /\ f_name x = n) /\
+  (forall f, In f E -> exists x tt tf, fn_at T f = Some x /\ f_params x = [(B "to", tt); (B "from", tf)]) /\
+  (forall f w, In f E -> In w (writes_of T f) ->
+     (forall r, In r (w_roots w) -> r = RLocal \/ r = RP 0%N 0%N) /\ (forall s, w_kind w <> WUnrec s)) /\
+  (forall f c e mask smask, In f E -> In c (calls_of T f) -> c_callee c = CExt e mask smask ->
+     forall r, In r (masked_roots mask smask (c_args c)) -> r = RLocal) /\
+  (forall f d, In f E -> In d depths -> node_bad T (f, RP 1%N d) = false) /\
+  (forall f c g, In f E -> In c (calls_of T f) -> c_callee c = CFun g -> In g E ->
+     exists a0 a1, c_args c = [a0; a1] /\ roots_within [0%N] (arg_direct a0) = true /\ roots_within [1%N] (arg_direct a1) = true) /\
+  (forall n, nreach (cut_table T E) E (from_starts E) n -> node_bad T n = false) /\
+  (forall g, freach (cut_table T E) E g -> fn_bad (cut_table T E) Ext Glob pol_ro g = false).
+Proof. exact copy_we_sound. Qed.
+
+(* the cut table only loses edges: what it reaches, the table reaches; what a node writes is the same in both *)
+Theorem C18_cut_table_is_a_subgraph : forall (T : list fn) (E E0 : list N) (S : list node),
+  (forall n, nreach (cut_table T E) E0 S n -> nreach T E0 S n) /\
+  (forall f, freach (cut_table T E) E0 f -> freach T E0 f) /\
+  (forall n, node_bad (cut_table T E) n = node_bad T n).
+Proof. intros T E E0 S; exact (conj (nreach_cut T E E0 S) (conj (freach_cut T E E0) (node_bad_cut T E))). Qed.
+
+(* diagnosis first: when copy.go moved, this is the obligation that fails, and the error message names the function,
+   the line and the roots ("Unable to unify None with Some (CoOwnWrite "CopyObjectProperties" "copy.go" 102 WField [RP 1 0])") *)
+Theorem C18_from_not_written_first_bad : copy_we_first_bad = None.
+Proof. exact copy_we_first_bad_none. Qed.
+
+(* no offence found = the condition holds, for every table *)
+Theorem C18_from_not_written_diagnosis_complete : forall (T : list fn) (Ext Glob Files : list bytes),
+  copy_first_bad T Ext Glob Files = None -> copy_we_ok T Ext Glob = true.
+Proof. exact copy_first_bad_none. Qed.
+
+(* the condition on the table of this run *)
+Theorem C18_from_not_written_table : copy_we_ok we_table we_externals we_globals = true.
+Proof. exact copy_we_holds. Qed.
+
+(* non-vacuity: the eight functions are found, and `from` does travel - the `new` parameter of the replaceIf.. helpers,
+   the argument of ToObject, the receiver of Object.GetLink, the argument of IsNil are among the nodes followed *)
+Example C18_from_not_written_nontrivial :
+  length copy_we_entries = 8 /\
+  map (fn_label we_table) copy_we_entries =
+    ["CopyCollectionPageProperties"; "CopyCollectionProperties"; "CopyItemProperties"; "CopyObjectProperties";
+     "CopyOrderedCollectionPageProperties"; "CopyOrderedCollectionProperties"; "UpdatePersonProperties";
+     "copyAllItemProperties"]%string /\
+  forallb (fun n => mem_n n (reach_n (cut_table we_table copy_we_entries) we_fuel copy_we_entries (from_starts copy_we_entries)))
+    [(copy_index (B "replaceIfItemCollection"), RP 1%N 0%N); (copy_index (B "replaceIfItem"), RP 1%N 0%N);
+     (copy_index (B "replaceIfSource"), RP 1%N 0%N); (copy_index (B "ToObject"), RP 0%N 0%N);
+     (copy_index (B "Object.GetLink"), RP 0%N 0%N); (copy_index (B "IsNil"), RP 0%N 0%N)] = true /\
+  (50 <=? length (reach_f (cut_table we_table copy_we_entries) we_fuel copy_we_entries)) = true.
+Proof. exact copy_we_nontrivial. Qed.
+
+Example C18_from_reaches_helper :
+  nreach (cut_table we_table copy_we_entries) copy_we_entries (from_starts copy_we_entries)
+         (copy_index (B "replaceIfItemCollection"), RP 1%N 0%N).
+Proof. exact copy_we_reaches_helper. Qed.
+
+(* mutated tables are refused, the offender named.  `from.To = from.To[:0]` at the end of CopyObjectProperties (a field
+   store into the struct `from` points to); `clear(new)` in replaceIfItemCollection (the helper wipes the list it is
+   handed as `new`); `to.Tag[0] = nil` in CopyObjectProperties (one level below `to`: after the merge that array may
+   be from's) *)
+Theorem C18_truncates_from_refuted :
+  copy_we_ok T_truncates_from we_externals we_globals = false /\
+  copy_first_bad T_truncates_from we_externals we_globals we_files =
+    Some (CoOwnWrite "CopyObjectProperties" "copy.go" 102%N WField [RP 1%N 0%N]) /\
+  node_bad T_truncates_from (copy_index (B "CopyObjectProperties"), RP 1%N 0%N) = true.
+Proof. exact copy_truncates_from_refuted. Qed.
+
+Theorem C18_helper_clears_from_refuted :
+  copy_we_ok T_helper_clears we_externals we_globals = false /\
+  copy_first_bad T_helper_clears we_externals we_globals we_files =
+    Some (CoHandedOn (OffParamWrite "replaceIfItemCollection" (RP 1%N 0%N) "copy.go" 216%N "write statement")).
+Proof. exact copy_helper_clears_refuted. Qed.
+
+Theorem C18_writes_below_to_refuted :
+  copy_we_ok T_writes_below_to we_externals we_globals = false /\
+  copy_first_bad T_writes_below_to we_externals we_globals we_files =
+    Some (CoOwnWrite "CopyObjectProperties" "copy.go" 102%N WIndex [RP 0%N 1%N]).
+Proof. exact copy_writes_below_to_refuted. Qed.
+
+(* why not C12's node condition as it is: started at the `from` parameters on the uncut table it reports the field
+   stores of the merge itself *)
+Theorem C18_from_transitive_condition_too_coarse :
+  first_bad we_table we_externals we_globals we_files pol_ro we_fuel copy_we_entries (from_starts copy_we_entries)
+  = Some (OffParamWrite "CopyOrderedCollectionProperties" (RP 0%N 0%N) "copy.go" 31%N "write statement").
+Proof. exact copy_uncut_condition_too_coarse. Qed.
